@@ -25,6 +25,7 @@ func init() {
 	ruleText["R15.5"] = "in getVarDependencies the kind of an identifier's parent node is tested only against selectorExpr (and keyValueExpr only together with a struct-literal test); no other parent kind makes an identifier be ignored"
 	ruleText["R15.6"] = "in genGlobalVarDecl, from the statement appending a variable to the ordered list the head of the innermost enclosing loop is not reachable without leaving that loop: the earliest ready variable is taken first, then the scan restarts"
 	ruleText["R15.7"] = "for every case of gta's switch over node kinds that creates variable symbols (directly or in a directly called in-package function), each &symbol{kind: varSym} literal has node and global keys, or the case assigns the node and global fields afterwards"
+	ruleText["R15.8"] = "in the defineStmt and defineXStmt cases of gta no in-package resolving call assigns the pass's named error result (cfgErrorf excepted) and the node is appended to the revisit list"
 	ruleText["R15.4"] = "the function collecting the dependencies of a package variable handles function symbols (refers to funcSym): dependencies that pass through function bodies are followed"
 }
 
@@ -41,6 +42,7 @@ func runC15(c *Config, r *Report) {
 	c15R5(ic, r)
 	c15R6(ic, r)
 	c15R7(ic, r)
+	c15R8(ic, r)
 }
 
 // startListVar returns the local variable holding the start list in fi: the one appended
@@ -512,26 +514,22 @@ func c15R5(ic *IC, r *Report) {
 		return ""
 	}
 	kinds := map[string]token.Pos{}
+	// the collector and the plain functions it calls directly (a walk moved into a helper is
+	// the same collector)
+	bodies := []*ast.BlockStmt{fi.Decl.Body}
 	ast.Inspect(fi.Decl.Body, func(n ast.Node) bool {
-		switch x := n.(type) {
-		case *ast.BinaryExpr:
-			if x.Op == token.EQL || x.Op == token.NEQ {
-				if isAncKind(x.X) {
-					if k := constName(x.Y); k != "" {
-						kinds[k] = x.Pos()
-					}
-				} else if isAncKind(x.Y) {
-					if k := constName(x.X); k != "" {
-						kinds[k] = x.Pos()
-					}
-				}
-			}
-		case *ast.SwitchStmt:
-			if x.Tag != nil && isAncKind(x.Tag) {
-				for _, s := range x.Body.List {
-					for _, e := range s.(*ast.CaseClause).List {
-						if k := constName(e); k != "" {
-							kinds[k] = e.Pos()
+		if c, ok := n.(*ast.CallExpr); ok {
+			if f, ok := calleeOf(ic.Info, c).(*types.Func); ok && f.Pkg() == ic.Pk.Types && f != fi.Obj {
+				if d := ic.G.Funcs[f]; d != nil && d.Decl.Body != nil && d.Decl.Recv == nil && len(bodies) < 6 {
+					if sig := f.Type().(*types.Signature); sig.Params().Len() > 0 && isNamedPtr(sig.Params().At(0).Type(), "node") {
+						dup := false
+						for _, b := range bodies {
+							if b == d.Decl.Body {
+								dup = true
+							}
+						}
+						if !dup {
+							bodies = append(bodies, d.Decl.Body)
 						}
 					}
 				}
@@ -539,13 +537,44 @@ func c15R5(ic *IC, r *Report) {
 		}
 		return true
 	})
+	for _, body := range bodies {
+		ast.Inspect(body, func(n ast.Node) bool {
+			switch x := n.(type) {
+			case *ast.BinaryExpr:
+				if x.Op == token.EQL || x.Op == token.NEQ {
+					if isAncKind(x.X) {
+						if k := constName(x.Y); k != "" {
+							kinds[k] = x.Pos()
+						}
+					} else if isAncKind(x.Y) {
+						if k := constName(x.X); k != "" {
+							kinds[k] = x.Pos()
+						}
+					}
+				}
+			case *ast.SwitchStmt:
+				if x.Tag != nil && isAncKind(x.Tag) {
+					for _, s := range x.Body.List {
+						for _, e := range s.(*ast.CaseClause).List {
+							if k := constName(e); k != "" {
+								kinds[k] = e.Pos()
+							}
+						}
+					}
+				}
+			}
+			return true
+		})
+	}
 	mentionsStruct := false
-	ast.Inspect(fi.Decl.Body, func(n ast.Node) bool {
-		if id, ok := n.(*ast.Ident); ok && (id.Name == "structT" || id.Name == "isStruct") {
-			mentionsStruct = true
-		}
-		return true
-	})
+	for _, body := range bodies {
+		ast.Inspect(body, func(n ast.Node) bool {
+			if id, ok := n.(*ast.Ident); ok && (id.Name == "structT" || id.Name == "isStruct") {
+				mentionsStruct = true
+			}
+			return true
+		})
+	}
 	if _, ok := kinds["selectorExpr"]; !ok {
 		r.Fail("R15.5", "getVarDependencies/skip:selectorExpr", ic.pos(fi.Decl.Pos()), "the collector does not exclude the selected name of a selector: x.f would create a false dependency on a package variable f (reported as a variable definition loop)")
 	}
@@ -784,5 +813,113 @@ func c15R7(ic *IC, r *Report) {
 	})
 	if n < 2 {
 		r.Errorf("R15.7: %d declaration forms creating variable symbols found in gta (defineStmt, defineXStmt and valueSpec expected)", n)
+	}
+}
+
+// c15R8: forward references. Package-level declarations may refer to functions and types
+// declared later in the package (or in another file); the global pass handles that by queuing
+// the declaration for another pass. Sibling agreement between the two declaration forms that
+// define variables from expressions: in the defineStmt and defineXStmt cases of gta, the error
+// of a resolving call (nodeType, cfg, compDefineX, ...) is never assigned to the pass's own
+// error result: it is stashed and the node is appended to the revisit list.
+func c15R8(ic *IC, r *Report) {
+	fi := ic.fn(r, "Interpreter.gta")
+	if fi == nil {
+		return
+	}
+	info := ic.Info
+	constName := func(e ast.Expr) string {
+		if id, ok := unparen(e).(*ast.Ident); ok {
+			if c, ok := info.Uses[id].(*types.Const); ok {
+				return c.Name()
+			}
+		}
+		return ""
+	}
+	// the pass's error variable: the named error result, or the captured `err` of the closure
+	var errObjs = map[types.Object]bool{}
+	if fi.Decl.Type.Results != nil {
+		for _, f := range fi.Decl.Type.Results.List {
+			for _, nm := range f.Names {
+				if isErrorType(info.TypeOf(f.Type)) {
+					errObjs[info.ObjectOf(nm)] = true
+				}
+			}
+		}
+	}
+	// or the function-level `var err error` that the walk closure assigns and gta returns
+	for _, st := range fi.Decl.Body.List {
+		if ds, ok := st.(*ast.DeclStmt); ok {
+			if gd, ok := ds.Decl.(*ast.GenDecl); ok {
+				for _, sp := range gd.Specs {
+					if vs, ok := sp.(*ast.ValueSpec); ok && vs.Type != nil && isErrorType(info.TypeOf(vs.Type)) {
+						for _, nm := range vs.Names {
+							errObjs[info.ObjectOf(nm)] = true
+						}
+					}
+				}
+			}
+		}
+	}
+	if len(errObjs) == 0 {
+		r.Errorf("R15.8: the error variable of gta was not identified")
+		return
+	}
+	n := 0
+	ast.Inspect(fi.Decl.Body, func(nd ast.Node) bool {
+		cc, ok := nd.(*ast.CaseClause)
+		if !ok || len(cc.List) == 0 {
+			return true
+		}
+		kind := ""
+		for _, e := range cc.List {
+			if k := constName(e); k == "defineStmt" || k == "defineXStmt" {
+				kind = k
+			}
+		}
+		if kind == "" {
+			return true
+		}
+		n++
+		var direct []string
+		revisits := false
+		for _, s := range cc.Body {
+			ast.Inspect(s, func(m ast.Node) bool {
+				as, ok := m.(*ast.AssignStmt)
+				if !ok {
+					return true
+				}
+				// revisit = append(revisit, n)
+				if len(as.Rhs) == 1 {
+					if c, ok := unparen(as.Rhs[0]).(*ast.CallExpr); ok {
+						if id, ok := c.Fun.(*ast.Ident); ok && id.Name == "append" && len(as.Lhs) == 1 && types.ExprString(as.Lhs[0]) == "revisit" {
+							revisits = true
+						}
+					}
+				}
+				if len(as.Rhs) != 1 {
+					return true
+				}
+				call, ok := unparen(as.Rhs[0]).(*ast.CallExpr)
+				if !ok || !inPkgCallee(ic, call) {
+					return true
+				}
+				if cn, _ := calleeName(ic, call); cn == "node.cfgErrorf" {
+					return true // a verdict of the pass itself
+				}
+				last := as.Lhs[len(as.Lhs)-1]
+				if id, ok := last.(*ast.Ident); ok && errObjs[info.ObjectOf(id)] {
+					cn, _ := calleeName(ic, call)
+					direct = append(direct, cn+" at "+ic.pos(as.Pos()))
+				}
+				return true
+			})
+		}
+		r.Check(len(direct) == 0 && revisits, "R15.8", "gta/case:"+kind+"/unresolved-is-retried", ic.pos(cc.Pos()), "a right-hand side that cannot be resolved yet queues the declaration for another pass",
+			"the "+kind+" case of gta returns the error of "+strings.Join(direct, ", ")+" at once instead of queuing the declaration for another pass (as the defineStmt case does): var a, b = f() placed before the declaration of f is rejected with 'assignment mismatch: 2 variables but f returns 0 values'")
+		return true
+	})
+	if n < 2 {
+		r.Errorf("R15.8: %d of the defineStmt/defineXStmt cases found in gta", n)
 	}
 }
